@@ -261,7 +261,7 @@ class Interp(ExprMixin):
             recv = None
             if d is not None and d.split('.')[0] not in st.env:
                 tgt = self.repo.resolve_name(self.cur.module, d)
-                if tgt is not None:
+                if tgt is not None and not (isinstance(tgt, tuple) and tgt[0] in ('global', 'globalattr', 'classattr')):
                     return self.call_target(tgt, d, args, kwargs, st, node)
             recv = self.eval(fn.value, st)
             return self.call_method(recv, fn.attr, args, kwargs, st, node)
